@@ -87,6 +87,7 @@ type fmtDef struct {
 	vers     [5]verClass
 	rawOf    func(want string) string // inverse of the version canonicalisation (used for fixtures)
 	mk       func() filesystem.Extractor
+	mkAlt    func() filesystem.Extractor // the same extractor under another legal configuration (size limit off <-> far above the document); every third case
 	render   func(recs []crec, l lay) rendered
 	keyed    bool
 	nested   bool // second "section" = nested under another record (package-lock)
@@ -122,11 +123,13 @@ func init() {
 		names: [6]string{"libc6", "libstdc++6", "python3.11-minimal", "g++-12", "0ad", "libsigc++-2.0-0v5"},
 		vers:  same("2.36-9+deb12u4", "1:1.2.13.dfsg-1", "2.4.7~rc1-1ubuntu0.1", "20230311", "1:9.18.24-0ubuntu0.22.04.1+esm1"),
 		rawOf: ident, mk: dpkg.NewDefault, render: renderDpkg, sects: 1,
+		mkAlt: func() filesystem.Extractor { return dpkg.New(dpkg.Config{}) }, // MaxFileSizeBytes 0 = no limit
 		trailing: []string{"nl", "blank"}, comments: []string{"none"}, variants: []string{"-"}})
 	reg(&fmtDef{name: "apk", path: "lib/apk/db/installed", osFiles: true,
 		names: [6]string{"musl", "libcrypto3", "ca-certificates-bundle", "libstdc++", "py3-setuptools", "gtk+3.0"},
 		vers:  same("1.2.4_git20230717-r4", "3.1.4-r5", "20240226-r0", "1.36.1-r15", "2.0_rc3-r1"),
 		rawOf: ident, mk: apk.NewDefault, render: renderApk, sects: 1,
+		mkAlt: func() filesystem.Extractor { return apk.New(apk.Config{MaxFileSizeBytes: 1 << 20}) },
 		trailing: []string{"nl", "blank"}, comments: []string{"none"}, variants: []string{"-"}})
 	reg(&fmtDef{name: "requirements", path: "requirements.txt",
 		names: pyNames, alt: &pyAltNames, vers: same(pyVers...),
@@ -147,6 +150,7 @@ func init() {
 		names: [6]string{"lodash", "@babel/core", "@types/node", "string-width", "JSONStream", "left-pad"},
 		vers:  same("4.17.21", "7.24.0-beta.1", "20.11.30", "1.0.0+build.5", "0.0.1-security"),
 		rawOf: ident, mk: packagelockjson.NewDefault, render: renderPackageLock, sects: 2, crlf: true, keyed: true, nested: true,
+		mkAlt: func() filesystem.Extractor { return packagelockjson.New(packagelockjson.Config{MaxFileSizeBytes: 1 << 20}) },
 		trailing: allTrail, comments: []string{"none"}, variants: []string{"v1", "v2", "v3"}})
 	reg(&fmtDef{name: "composerlock", path: "composer.lock",
 		names: [6]string{"monolog/monolog", "symfony/polyfill-mbstring", "psr/log", "league/flysystem-aws-s3-v3", "phpunit/php-code-coverage", "sentry/sdk"},
@@ -178,6 +182,7 @@ func init() {
 		names: [6]string{"Newtonsoft.Json", "Microsoft.Extensions.Logging.Abstractions", "NUnit", "System.Text.Json", "AWSSDK.S3", "xunit.runner.visualstudio"},
 		vers:  same("13.0.3", "8.0.0-preview.1.23110.8", "4.1.0", "3.7.305.22", "2.5.7"),
 		rawOf: ident, mk: packageslockjson.NewDefault, render: renderPackagesLock, sects: 2, crlf: true, keyed: true,
+		mkAlt: func() filesystem.Extractor { return packageslockjson.New(packageslockjson.Config{MaxFileSizeBytes: 1 << 20}) },
 		trailing: allTrail, comments: []string{"none"}, variants: []string{"-"}})
 }
 
@@ -376,6 +381,11 @@ func init() {
 			if fd.alt != nil && idx%2 == 1 {
 				cp := *fd
 				cp.names = *fd.alt
+				fd = &cp
+			}
+			if fd.mkAlt != nil && idx%3 == 2 {
+				cp := *fd
+				cp.mk = fd.mkAlt
 				fd = &cp
 			}
 			recs, err := concretise(fd, &c)
